@@ -42,6 +42,10 @@ def run(c):
         "domain and a context per AddRcpt call, which the harness ends (deadline exceeded) when the crashed discovery has left the delivery "
         "waiting in daneDelivery.CheckConn (goroutine dumps) — on the unchanged tree that wait only ends with the context; in the model a "
         "crashed lookup is a failed lookup (MX.crashedAt)",
+        "failing lookups: the DNS front end answers the chosen query of the DNSSEC-aware resolver with the RCODE (or with a datagram too short to be a "
+        "DNS message); time-outs are not generated (wall-clock); when the address queries of discovery fail the plain resolver the connection is "
+        "made with still answers (the two resolvers are different objects in maddy too); an NXDOMAIN answer to the CNAME-type query of a name "
+        "that is an alias is outside the generated world",
         "configuration: the mx_auth block of every case is generated as directive TEXT and goes through cfgparser.Read, config.Map, "
         "PolicyGroup.Init and the Init of every policy module; words are byte strings as the lexer hands them over (quoting is the "
         "lexer's business); the level a word documents is that of its letters in lower case (junk around the word stripped) — a "
@@ -60,7 +64,8 @@ def run(c):
         "shuffled config block (mtasts, sts_preload, dane, dnssec, local_policy with every min level), override / relaxed_requiretls / reuse limit "
         "0,1,10; per-MX facts on scripted go-smtp servers at 127.0.0.1-3 (STARTTLS offered / stripped / handshake failure / command refused; "
         "generated chains: valid / unknown issuer / wrong name; REQUIRETLS on/off; down), loopback DNS server with AD control per RRset and TLSA "
-        "EE-match / TA-match / mismatch / unusable / SERVFAIL / none (+ delayed answers; + a PANIC inside the resolver's lookups of an MX's "
+        "EE-match / TA-match / mismatch / unusable / none / a FAILING lookup in every way a lookup fails at once (SERVFAIL, REFUSED, NOTIMP, FORMERR, "
+        "an unreadable answer: at the TLSA query of either base domain, the CNAME-type query, the address queries of discovery) (+ delayed answers; + a PANIC inside the resolver's lookups of an MX's "
         "TLSA discovery, at the address / CNAME / TLSA stage); MX host names that are CNAME aliases (signed / unsigned "
         "CNAME RRset, signed / unsigned canonical zone, CNAME-type query failing) with independent TLSA outcomes at the canonical and at the "
         "initial name (RFC 7672 2.2.2: which base domain is consulted in which order); injected MTA-STS fetcher (absent/none/testing/enforce x "
